@@ -50,7 +50,9 @@ SHARD_TIMEOUT = {"quick": 1500, "thorough": 6000}
 def shards(tier, seed):
     k = 16
     q = tier == "quick"
-    return [{"shard": i, "n_pts": (2000 if q else 20000) // k + 1, "n_warp": (600 if q else 6000) // k + 1, "n_ct": (96 if q else 960) // k} for i in range(k)]
+    out = [{"shard": i, "n_pts": (2000 if q else 20000) // k + 1, "n_warp": (600 if q else 6000) // k + 1, "n_ct": (96 if q else 960) // k} for i in range(k)]
+    out.append({"shard": k, "n_pts": 0, "n_warp": 0, "n_ct": 0, "repo_tests": ["tests/unit/test_affine.py", "tests/unit/test_coordinate_transformation.py", "tests/unit/test_correction.py"]})
+    return out
 
 
 def pullback(src, dst_shape, src_of):
@@ -90,6 +92,10 @@ def run_shard(spec, R):
         return True
 
     attach_post(darsia.AffineTransformation, "set_parameters", post_set_parameters, R)
+    if spec.get("repo_tests"):
+        from vf.ambient import run_repo_tests
+
+        return run_repo_tests(R, spec["repo_tests"])
 
     # ================================================================ points
     for n in range(spec["n_pts"]):
